@@ -2,7 +2,7 @@
   Mutual majority for a single seat: a coalition solidly supported by more than half of the votes (by ballots
   without shared ranks) keeps a continuing member until one of its members wins.
 -/
-import VotelibProofs.Lemmas.STVPrefix
+import VotelibProofs.Lemmas.STVItem
 namespace VL.STV
 open VL
 
@@ -68,7 +68,6 @@ def MutInv (votes : Profile) (S : List Cand) (st : St) : Prop :=
 
 structure MutHyp (cfg : Cfg) (votes : Profile) (S : List Cand) : Prop where
   wf : WFVotes votes
-  strict : ∀ bw ∈ votes, solidFor bw.1 S = true → solidStrict bw.1 S = true
   maj : totalVotes votes / 2 < support votes S
   step : cfg.step = some (-1)
   quota : ∀ q, computeQuota cfg (totalVotes votes) 1 = some q → totalVotes votes / 2 ≤ q
@@ -77,20 +76,18 @@ section
 variable {cfg : Cfg} {votes : Profile} {S : List Cand}
 
 /-- every solid paper rests with a member of `S` while a member continues -/
-theorem solid_rests_in (hh : MutHyp cfg votes S) {st : St} (hi : StInv cfg (selectorInput votes 1) st)
-    (hpre : RestsPre st.alloc) (hf : st.final = false) {s : Cand} (hsS : s ∈ S) (hsc : s ∈ continuing st.alloc)
-    {hp : Option Cand × Pile} (hhp : hp ∈ st.alloc) {x : Ballot × Rat} (hx : x ∈ hp.2)
-    (hsol : solidFor x.1 S = true) : ∃ t ∈ S, hp.1 = some t := by
-  have hb := hi.ballots hf hp hhp x hx
-  simp only [selectorInput] at hb
-  obtain ⟨bw, hbw, hbe⟩ := List.mem_map.mp hb
-  have hss : solidStrict x.1 S = true := by rw [← hbe]; exact hh.strict bw hbw (by rw [hbe]; exact hsol)
-  obtain ⟨t, ht, htS⟩ := solid_top_pre hss hsS hsc
-  exact ⟨t, htS, hpre hp hhp x hx t ht⟩
+theorem solid_rests_in {st : St} (hpre : RestsItem st.alloc) {s : Cand} (hsS : s ∈ S)
+    (hsc : s ∈ continuing st.alloc) {hp : Option Cand × Pile} (hhp : hp ∈ st.alloc) {x : Ballot × Rat}
+    (hx : x ∈ hp.2) (hsol : solidFor x.1 S = true) : ∃ t ∈ S, hp.1 = some t := by
+  obtain ⟨it, hit, hsub⟩ := solid_top_item hsol hsS hsc
+  have := hpre hp hhp x hx
+  rw [hit] at this
+  obtain ⟨t, ht, hti⟩ := this
+  exact ⟨t, hsub t hti, ht⟩
 
 /-- a candidate outside `S` holds less than half while a member of `S` continues -/
 theorem outsider_below_half (hh : MutHyp cfg votes S) {st : St} (hi : StInv cfg (selectorInput votes 1) st)
-    (hpre : RestsPre st.alloc) (hf : st.final = false) (hb : st.byQuota = 0)
+    (hpre : RestsItem st.alloc) (hf : st.final = false) (hb : st.byQuota = 0)
     (hheld : heldP (fun b => solidFor b S) st.alloc = support votes S)
     {s : Cand} (hsS : s ∈ S) (hsc : s ∈ continuing st.alloc) {y : Cand} (hy : y ∉ S) :
     totalOf st.alloc y < totalVotes votes / 2 := by
@@ -100,7 +97,7 @@ theorem outsider_below_half (hh : MutHyp cfg votes S) {st : St} (hi : StInv cfg 
     obtain ⟨hp, hhp, hk, hxx⟩ := allocPile_mem hx
     by_contra hc
     have hsol : solidFor x.1 S = true := by simpa using hc
-    obtain ⟨t, htS, hte⟩ := solid_rests_in hh hi hpre hf hsS hsc hhp hxx hsol
+    obtain ⟨t, htS, hte⟩ := solid_rests_in hpre hsS hsc hhp hxx hsol
     rw [hk] at hte
     injection hte with hte
     exact hy (hte ▸ htS)
@@ -115,7 +112,7 @@ theorem outsider_below_half (hh : MutHyp cfg votes S) {st : St} (hi : StInv cfg 
 
 /-- the last continuing member of `S` holds more than half -/
 theorem last_member_above_half (hh : MutHyp cfg votes S) {st : St} (hi : StInv cfg (selectorInput votes 1) st)
-    (hpre : RestsPre st.alloc) (hf : st.final = false) (hheld : heldP (fun b => solidFor b S) st.alloc = support votes S)
+    (hpre : RestsItem st.alloc) (hf : st.final = false) (hheld : heldP (fun b => solidFor b S) st.alloc = support votes S)
     {s : Cand} (hsS : s ∈ S) (hsc : s ∈ continuing st.alloc)
     (honly : ∀ s' ∈ S, s' ∈ continuing st.alloc → s' = s) : totalVotes votes / 2 < totalOf st.alloc s := by
   have hn := hi.nonneg hh.wf hf
@@ -124,7 +121,7 @@ theorem last_member_above_half (hh : MutHyp cfg votes S) {st : St} (hi : StInv c
     intro hp hhp hne y hy
     by_contra hc
     have hsol : solidFor y.1 S = true := by simpa using hc
-    obtain ⟨t, htS, hte⟩ := solid_rests_in hh hi hpre hf hsS hsc hhp hy hsol
+    obtain ⟨t, htS, hte⟩ := solid_rests_in hpre hsS hsc hhp hy hsol
     have htc : t ∈ continuing st.alloc := mem_continuing.mpr (by rw [← hte]; exact List.mem_map_of_mem (f := (·.1)) hhp)
     exact hne (by rw [hte, honly t htS htc])
   have := heldP_le_total (P := fun b => solidFor b S) hk hn hall
@@ -134,7 +131,7 @@ theorem last_member_above_half (hh : MutHyp cfg votes S) {st : St} (hi : StInv c
 
 
 theorem mut_step {E : Engine} (hE : EngineOK E) (hh : MutHyp cfg votes S) {st st' : St}
-    (hi : StInv cfg (selectorInput votes 1) st) (hpre' : st.final = false → RestsPre st.alloc) (hm : MutInv votes S st)
+    (hi : StInv cfg (selectorInput votes 1) st) (hpre' : st.final = false → RestsItem st.alloc) (hm : MutInv votes S st)
     (h : countStep E cfg (selectorInput votes 1) st = .ok (some st')) : MutInv votes S st' := by
   obtain ⟨hne, out, ds', hnext, _, hadv⟩ := countStep_inv h
   rcases hm with ⟨hs0, hf, hb, hheld, s, hsS, hsc⟩ | ⟨c, _, hs1⟩
@@ -335,7 +332,7 @@ theorem mut_reach {E : Engine} (hE : EngineOK E) (hh : MutHyp cfg votes S) (hS :
           rw [← ballotCands_append, List.take_append_drop]
         rw [hsplit]
         exact List.mem_append_left _ hx
-  | step hr' h ih => exact mut_step hE hh (reach_inv hE hr') (reach_restsPre hE hr') ih h
+  | step hr' h ih => exact mut_step hE hh (reach_inv hE hr') (reach_restsItem hE hr') ih h
 
 end
 
